@@ -204,7 +204,7 @@ def parse_type(q):
     if targs and len(targs) == 1 and (name in TYPEDEFS or ('romea::core::' + name) in TYPEDEFS) and not name.startswith('std::'):
         # alias template of the repository (using X = Eigen::Matrix<Scalar, N, 1>): substitute its single parameter
         body = TYPEDEFS.get(name) or TYPEDEFS['romea::core::' + name]
-        body = re.sub(r'\b(Scalar|T)\b', targs[0], body).replace('type-parameter-0-0', targs[0])
+        body = re.sub(r'\b(Scalar|T|EigenVectorType|PointType)\b', targs[0], body).replace('type-parameter-0-0', targs[0])
         if body.startswith('Matrix<'):
             body = 'Eigen::' + body
         if body.startswith('vector<'):
@@ -349,6 +349,7 @@ class Program:
         self.decl_index = {}   # clang id -> node (records, methods)
         self.string_literals = {}
         self.typedefs = {}
+        self.options = {}      # extraction options of the spec (e.g. unroll_const_loops)
         self.units = []
         self.by_def_id = {}    # clang decl id (any redeclaration) -> (unit, parent_qual, def node)
         self.cname_of_id = {}  # definition id -> cname
@@ -1130,6 +1131,10 @@ class FnTranslator:
                         ('assign', ('field', lv, 'head', ('int', 64, False)), ('const', ('int', 64, False), 0))]
             if t[0] == 'atomic' and len(args) == 1:
                 return [('assign', lv, self.expr(args[0]))]
+            args = [a for a in args if self.strip(a)['kind'] != 'CXXDefaultArgExpr']
+            if t[0] == 'vector' and len(args) == 1 and is_scalar(self.T(args[0])) and t[1][0] != 'vector':
+                self.rule('std::vector<T>(n): n value-initialised elements (model call stdvec_*_ctor_n provides the storage)')
+                return [('expr', ('call', 'stdvec_%s_ctor_n' % type_tag(t[1]), [('addr', lv, ('ptr', t)), self.expr(args[0])], ('void',)))]
             if t[0] == 'vector' and len(args) >= 1 and is_scalar(self.T(args[0])) and t[1][0] == 'vector':
                 self.rule('std::vector<std::vector<T>>(n): n empty inner vectors (model call stdvec_*_resize)')
                 return [('expr', ('call', 'stdvec_%s_resize' % type_tag(t[1]), [('addr', lv, ('ptr', t)), self.expr(args[0])], ('void',)))]
@@ -1193,6 +1198,11 @@ class FnTranslator:
             return pre + [('if', c, th, el)]
         if k == 'ForStmt':
             save = (self.loopn, list(self.pre), dict(self.vars), dict(self.alias), set(self.names), self.tmpn)
+            if self.prog.options.get('unroll_const_loops'):
+                try:
+                    return self.unroll_for(n, ExtractError('not a compile-time counted loop'))
+                except ExtractError:
+                    self.loopn, self.pre, self.vars, self.alias, self.names, _ = save[0], list(save[1]), dict(save[2]), dict(save[3]), set(save[4]), save[5]
             try:
                 return self.for_stmt(n)
             except ExtractError as ex:
@@ -1252,6 +1262,13 @@ class FnTranslator:
                 nm = self.tmp(t)
                 st = [('decl', nm, t, None)] + self.eig_store(('var', nm, t), t, ev)
                 return self.flush() + st + [('return', ('var', nm, t))]
+            if t[0] == 'vector':
+                self.rule('std::vector returned by value: the C model struct is copied (storage shared)')
+                e0 = self.strip(e)
+                while e0['kind'] in ('CXXConstructExpr', 'ImplicitCastExpr', 'CXXFunctionalCastExpr') and len(self.inner(e0)) == 1:
+                    e0 = self.strip(self.inner(e0)[0])        # copy / move construction of the returned vector
+                v = self.lvalue(e0) if e0['kind'] not in ('CallExpr', 'CXXMemberCallExpr') else self.expr(e0)
+                return self.flush() + [('return', v)]
             if t[0] == 'struct':
                 self.rule('struct returned by value: copy of the C model (container models are copied shallowly)')
                 v = self.aggregate_value(e, t)
